@@ -69,6 +69,7 @@ def run_group(scratch, group, timeout=1800, only=None):
         # cargo test takes one filter before `--`; further filters go after it
         cmd = ["cargo", "test", "--offline", "--release", "--lib", "--"] + [group.modname + "::" + t for t in only] + ["--nocapture", "--test-threads", "1"]
     with kani_leg.target_lock("replay"):
+        kani_leg.common_purge(kani_leg.REPLAY_TARGET, scratch)
         rc, so, se, wall = run(cmd, cwd=scratch, timeout=timeout, env=env)
     text = so + "\n" + se
     if rc == -9:
